@@ -36,6 +36,19 @@ async function compileFiles(ctx, files, order) {
   }
 }
 
+// the same project through beff_wasm's own file manager / module resolver (native host of the hook):
+// the layer between the host's files and the compiler must not change the result
+async function wasmLayerFault(ctx, req, coreRes) {
+  const w = await ctx.compiler.compile({ ...req, via: "wasm" });
+  if (["died", "hang", "worker_lost", "panic"].includes(w.outcome) || ["died", "hang", "worker_lost", "panic"].includes(coreRes.outcome)) return null;
+  ctx.count("wasm_layer_compared");
+  const msgs = (r) => (r.diagnostics || []).map((d) => `${d.file}|${d.line_lo ?? ""}:${d.col_lo ?? ""}|${d.message}`).sort().join("\n");
+  if (w.outcome !== coreRes.outcome) return { what: `outcome:${[coreRes.outcome, w.outcome].join("/")}`, detail: `core: ${coreRes.outcome} ${msgs(coreRes).slice(0, 300)}\nwasm layer: ${w.outcome} ${msgs(w).slice(0, 300)}` };
+  if (w.outcome === "code" && w.code !== coreRes.code) return { what: "code", detail: "the emitted code differs" };
+  if (w.outcome === "diagnostics" && msgs(w) !== msgs(coreRes)) return { what: "diagnostics", detail: `core: ${msgs(coreRes).slice(0, 300)}\nwasm layer: ${msgs(w).slice(0, 300)}` };
+  return null;
+}
+
 const variantOf = (res) => (res.diagnostics?.[0] ? res.diagnostics[0].variant : res.panic ? `panic@${res.panic.file}:${res.panic.line}` : res.outcome);
 
 export const PROBES = [
@@ -177,6 +190,47 @@ export async function run(ctx) {
       else if (verdicts(a.parsers.P, [fromEjson(p.value)])[0] !== verdicts(b.parsers.P, [fromEjson(p.value)])[0]) ctx.violation({ signature: `verdicts-differ|probe:${p.id}`, clause: "validators-differ", detail: p.id, replay: { kind: "split", single: p.single, files: p.files, collision: null, parser: "P", value: p.value } });
     }
   }
+  // one relative specifier written in two directories means two files: ./types below a/ and below b/
+  // (static imports, import("...") types, typeof import("..."), export *, re-exports), with equal or
+  // different export names; through the harness file manager and through beff_wasm's own
+  if (ctx.shard === 5 % ctx.of) {
+    const uses = [
+      ["import-type", (d) => `export type ${d.toUpperCase()} = { v: import("./types").Item };\n`],
+      ["typeof-import", (d) => `export type ${d.toUpperCase()} = { v: typeof import("./types").thing };\n`],
+      ["static", (d) => `import { Item } from "./types";\nexport type ${d.toUpperCase()} = { v: Item };\n`],
+      ["static-renamed", (d) => `import { Item as It } from "./types";\nexport type ${d.toUpperCase()} = { v: It };\n`],
+      ["namespace", (d) => `import * as t from "./types";\nexport type ${d.toUpperCase()} = { v: t.Item };\n`],
+      ["reexport", (d) => `export { Item as ${d.toUpperCase()}Item } from "./types";\nimport { Item } from "./types";\nexport type ${d.toUpperCase()} = { v: Item };\n`],
+      ["import-type-parent", (d) => `export type ${d.toUpperCase()} = { v: import("../${d}/types").Item; w: import("./types").Item };\n`],
+    ];
+    for (const [un, use] of uses)
+      for (const [vn, use2] of uses)
+        for (const sameNames of [true, false]) {
+          const files = {
+            "a/types.ts": 'export type Item = { k: "a" };\nexport const thing = { k: "a" } as const;\n',
+            "b/types.ts": sameNames ? 'export type Item = { k: "b" };\nexport const thing = { k: "b" } as const;\n' : 'export type Item = { k: "b" };\nexport const thing = { k: "b" } as const;\nexport type OnlyInB = 1;\n',
+            "a/mod.ts": use("a"),
+            "b/mod.ts": use2("b") + (sameNames ? "" : 'export type B2 = import("./types").OnlyInB;\n'),
+            "entry.ts": `import { A } from "./a/mod";\nimport { B } from "./b/mod";\n${sameNames ? "" : 'import { B2 } from "./b/mod";\n'}export const Parsers = parse.buildParsers<{ PA: A; PB: B${sameNames ? "" : "; P2: B2"} }>();\n`,
+          };
+          const id = `${un}+${vn}${sameNames ? "" : "+only-in-b"}`;
+          for (const via of [undefined, "wasm"]) {
+            const req = { files, settings: ALL_SETTINGS, via };
+            const res = await ctx.compiler.compile(req);
+            ctx.judged();
+            ctx.count("two_directories_grid");
+            const where = { kind: "split", single: "", files, collision: null };
+            if (res.outcome !== "code") {
+              ctx.violation({ signature: `split-project-rejected|two-directories|${via ?? "core"}|${id}`, clause: "outcome-differs", detail: `${id}: ${JSON.stringify(res.diagnostics?.[0]?.message ?? res.outcome)}`, replay: where });
+              continue;
+            }
+            const ps = buildAll(loadModule(res.code, ALL_SETTINGS));
+            const val = (k) => ({ v: { k }, w: { k } });
+            const got = [ps.PA.validate(val("a")), ps.PA.validate(val("b")), ps.PB.validate(val("a")), ps.PB.validate(val("b"))].join(",");
+            if (got !== "true,false,false,true") ctx.violation({ signature: `two-directories-bound-to-the-wrong-module|${via ?? "core"}|${id}`, clause: "validators-differ", detail: `${id}: PA / PB on {k:"a"} / {k:"b"}: ${got} (expected true,false,false,true)`, replay: where });
+          }
+        }
+  }
   const nProgs = ctx.share(12000, 200000);
   let sampled = 0;
   for await (const item of corpus(ctx, { label: "C09", count: nProgs, features: FEATURES })) {
@@ -193,6 +247,11 @@ export async function run(ctx) {
     const styles = [...new Set(split.links.map((l) => l.style))].sort().join("+");
     ctx.distinct(h8(styles + Object.keys(split.files).sort().join(",") + (split.collision ? "c" : "")));
     const where = { kind: "split", single: item.text, files: split.files, collision: split.collision };
+    if (rng.chance(0.5)) {
+      const wf = await wasmLayerFault(ctx, r.req, r.res);
+      ctx.judged();
+      if (wf) ctx.violation({ signature: `wasm-layer-changes-the-result|${wf.what}`, clause: "wasm-layer", detail: `${wf.detail}\n${Object.entries(split.files).map(([k, v]) => `--- ${k} ---\n${v}`).join("\n").slice(0, 2500)}`, replay: where });
+    }
     if (["died", "hang", "worker_lost"].includes(r.res.outcome)) {
       ctx.inconclusive("split-project-does-not-terminate-normally(C04)");
       continue;
